@@ -329,6 +329,62 @@ func applyDocEdit(doc *JV, op Op) bool {
 				return true
 			}
 		}
+	case "fx":
+		// something in the document is expressed in another currency than the document's:
+		// a payment line, a line's item, an advance, a preceding reference, a due date
+		cur := doc.Get("currency").Str()
+		if cur == "" {
+			return false
+		}
+		other := "USD"
+		if cur == "USD" {
+			other = "EUR"
+		}
+		var targets []*JV
+		isPayment := strings.HasSuffix(doc.Get("$schema").Str(), "/bill/payment")
+		if lines != nil && lines.K == 'a' {
+			for _, l := range lines.A {
+				if l == nil || l.K != 'o' {
+					continue
+				}
+				if isPayment {
+					targets = append(targets, l)
+				} else if it := l.Get("item"); it != nil && it.K == 'o' {
+					targets = append(targets, it)
+				}
+			}
+		}
+		if p := doc.Get("payment"); p != nil && p.K == 'o' {
+			if adv := p.Get("advances"); adv != nil && adv.K == 'a' {
+				for _, a := range adv.A {
+					if a != nil && a.K == 'o' && a.Get("amount") != nil {
+						targets = append(targets, a)
+					}
+				}
+			}
+		}
+		if pre := doc.Get("preceding"); pre != nil && pre.K == 'a' {
+			for _, a := range pre.A {
+				if a != nil && a.K == 'o' {
+					targets = append(targets, a)
+				}
+			}
+		}
+		if len(targets) == 0 {
+			return false
+		}
+		t := targets[int(op.I)%len(targets)]
+		if t.Get("currency").Str() == other {
+			return false
+		}
+		t.Set("currency", JStr(other))
+		if doc.Get("exchange_rates") == nil {
+			doc.Set("exchange_rates", &JV{K: 'a', A: []*JV{
+				{K: 'o', M: []JM{{"from", JStr(other)}, {"to", JStr(cur)}, {"amount", JStr(op.S2)}}},
+				{K: 'o', M: []JM{{"from", JStr(cur)}, {"to", JStr(other)}, {"amount", JStr("1.0417")}}},
+			}})
+		}
+		return true
 	case "scenario":
 		return applyScenario(doc, []int64{op.I, op.J, op.N})
 	case "inboxweird":
@@ -396,7 +452,7 @@ func applyDocEdit(doc *JV, op Op) bool {
 	return false
 }
 
-var editKinds = []string{"qty", "price", "rmline", "dupline", "note", "rounding", "custname", "code", "breakdown", "linedisc", "linecharge", "docdisc", "advances", "codeweird", "addrweird", "taxidweird", "amountprec", "mixrates", "mixrates", "rmdefaulted", "sloppy", "sloppy", "sloppy", "inboxweird", "scenario", "scenario"}
+var editKinds = []string{"qty", "price", "rmline", "dupline", "note", "rounding", "custname", "code", "breakdown", "linedisc", "linecharge", "docdisc", "advances", "codeweird", "addrweird", "taxidweird", "amountprec", "mixrates", "mixrates", "rmdefaulted", "sloppy", "sloppy", "sloppy", "inboxweird", "scenario", "scenario", "fx"}
 
 func genEdit(r *rand.Rand, id int) Op {
 	k := Pick(r, editKinds)
@@ -428,6 +484,8 @@ func genEdit(r *rand.Rand, id int) Op {
 		op.S2 = Pick(r, []string{"type", "currency", "$regime", "type", "tax"})
 	case "sloppy":
 		op.I, op.J = int64(r.IntN(1<<16)), int64(r.IntN(7))
+	case "fx":
+		op.S2 = Pick(r, []string{"0.96", "0.9137", "1.25", "0.5"})
 	case "scenario":
 		op.I, op.J, op.N = int64(r.IntN(1<<12)), int64(r.IntN(1<<12)), int64(r.IntN(1<<12))
 	case "inboxweird":
